@@ -47,7 +47,12 @@ def gen(rng, n, tier):
                     over["xlabel"] if over["xlabel"] != "none" else (meta["axis_name"] if meta["axis_name"] != "none" else "axis0"),
                     over["ylabel"] if over["ylabel"] != "none" else ""]
             ticks = rng.choice(["none", "none", "center", "edge"]) if not kind.startswith("plotly") or True else "none"
-            yield [["bucket", "plot1/" + kind], ["what", "plot1"], ["kind", kind], ["bins", bins], ["freq", freq], ["err2", err2], ["ints", "T" if ints else "F"],
+            coll = "none"
+            if kind in ("bar", "scatter", "line", "step", "plotly_bar", "plotly_scatter", "plotly_line") and rng.random() < 0.2 and not errs:
+                coll = [rng.choice([0, 1, 2, 5, 17]) if ints else fl(rng.random() * 10) for _ in bins]
+                if all(x == 0 for x in coll): coll[0] = 1 if ints else fl(1.5)
+                want[0] = over["title"] if over["title"] != "none" else "The collection"
+            yield [["bucket", "plot1/" + kind + ("/collection" if coll != "none" else "")], ["what", "plot1"], ["kind", kind], ["bins", bins], ["freq", freq], ["err2", err2], ["ints", "T" if ints else "F"], ["freq2", coll],
                    ["density", "T" if dens else "F"], ["cumulative", "T" if cum else "F"], ["errors", "T" if errs else "F"],
                    ["show_values", rng.choice("TF") if kind in ("bar", "scatter", "line", "step") else "F"], ["ticks", ticks],
                    ["meta", [[k, v] for k, v in meta.items()]], ["over", [[k, v] for k, v in over.items()]],
@@ -142,6 +147,12 @@ def _plot1(d, f):
     import matplotlib.pyplot as plt
     h = _h1(d); before = _snap(h)
     kind = d["kind"]
+    target = h; h2m = None
+    if d.get("freq2", "none") != "none":
+        from physt.histogram_collection import HistogramCollection
+        d2 = dict(d); d2["freq"] = d["freq2"]; d2["err2"] = d["freq2"]
+        h2m = _h1(d2); h2m._binning = h._binning; h2m._binnings = h._binnings
+        target = HistogramCollection(h, h2m, title="The collection")
     kw = {}
     if d["density"] == "T": kw["density"] = True
     if d["cumulative"] == "T": kw["cumulative"] = True
@@ -154,8 +165,8 @@ def _plot1(d, f):
     if d["ticks"] != "none": kw["ticks"] = d["ticks"]
     out = [["bins", [[float(a), float(b)] for a, b in h.bins.tolist()]], ["freq", f(h.frequencies)], ["err2", f(h.errors2)]]
     try:
-        if plotly: fig = h.plot(kind[7:], backend="plotly", **kw)
-        else: ax = h.plot(kind, backend="matplotlib", **kw)
+        if plotly: fig = target.plot(kind[7:], backend="plotly", **kw)
+        else: ax = target.plot(kind, backend="matplotlib", **kw)
     except (ValueError, TypeError, ZeroDivisionError) as e:
         return out + [["refused", type(e).__name__]]
     marks = []; errbars = "n/a"; texts = "n/a"; xticks = []
@@ -187,6 +198,16 @@ def _plot1(d, f):
             texts = [[float(t.get_position()[0]), float(t.get_position()[1])] for t in ax.texts]
         labels = [ax.get_title(), ax.get_xlabel(), ax.get_ylabel()]
         xticks = [float(x) for x in ax.get_xticks()]
+    if h2m is not None:
+        n = len(d["bins"])
+        if plotly:
+            t = fig.data[1]
+            marks2 = [[float(x), float(w), float(y)] for x, w, y in zip(t.x, t.width, t.y)] if kind == "plotly_bar" else [[float(x), float(y)] for x, y in zip(t.x, t.y)]
+        elif kind == "bar": marks2 = marks[n:]; marks = marks[:n]
+        elif kind == "scatter": marks2 = marks; marks = [[float(x), float(y)] for x, y in ax.collections[0].get_offsets()]
+        elif kind in ("line", "step"): marks2 = [[float(x), float(y)] for x, y in ax.lines[1].get_xydata()]
+        if texts != "n/a": texts = texts[:n]
+        out += [["freq2", f(h2m.frequencies)], ["marks2", marks2]]
     out += [["marks", marks], ["errbars", errbars], ["texts", texts], ["labels", labels], ["xticks", xticks], ["unchanged", "T" if _snap(h) == before else "F"]]
     return out
 
